@@ -944,3 +944,523 @@ Section TemplatesMS.
       fold rs in F3. rewrite F3. cbn [nonempty negb andb]. apply eval_wsh_ok; assumption.
   Qed.
 End TemplatesMS.
+
+(* ------------------------------------------------------------------ *)
+(* taproot (psetv2): key path and single-leaf script path              *)
+(* ------------------------------------------------------------------ *)
+Lemma last_byte_snoc l x : last_byte (l ++ [x]) = Some x.
+Proof.
+  induction l as [|a r IH]; [reflexivity|]. cbn [app last_byte]. rewrite IH.
+  destruct (r ++ [x]) eqn:E; [destruct r; discriminate | reflexivity].
+Qed.
+
+Section TemplatesTap.
+  Variable chk : salgo -> bytes -> bytes -> bytes -> bool.
+  Variable commit : bytes -> bytes -> bytes -> bool.
+
+  Lemma tap_key_final (i : pin2) q :
+    is_final2 i = false -> nonempty (q_tapkeysig i) = true -> lenN (q_tapkeysig i) <= 65 ->
+    length q = 32%nat -> chk ATapKey [] q (q_tapkeysig i) = true ->
+    taproot_final i = OcOk (vector [q_tapkeysig i]) /\
+    read_witness (vector [q_tapkeysig i]) = Some [q_tapkeysig i] /\
+    satisfies chk commit (p2tr_script q) [] [q_tapkeysig i] = true.
+  Proof.
+    intros Hf Hne Hl Hq Hc. split; [|split].
+    - unfold taproot_final. rewrite Hf, Hne. reflexivity.
+    - apply (read_witness_ser chk commit); [repeat constructor; lia | cbn; lia].
+    - unfold satisfies. destruct (class_p2tr q Hq) as (E1 & E2 & E3 & E4).
+      rewrite E1, E2, E3, E4. cbn [orb nonempty negb andb eval_taproot]. exact Hc.
+  Qed.
+
+  Lemma tap_leaf_final (i : pin2) q l pk sg :
+    is_final2 i = false -> q_tapkeysig i = [] ->
+    q_tapleafs i = [l] -> tl_script l = tapleaf_checksig_script pk -> length pk = 32%nat ->
+    q_tapsigs i = [mk_tsig pk sg (tapleaf_hash l)] ->
+    lenN sg <= 65 -> lenN (tl_cb l) <= 10000 -> length q = 32%nat ->
+    commit (tl_cb l) (tl_script l) q = true -> chk ATapLeaf (tl_script l) pk sg = true ->
+    let w := [sg; tl_script l; tl_cb l] in
+    taproot_final i = OcOk (vector w) /\ read_witness (vector w) = Some w /\
+    satisfies chk commit (p2tr_script q) [] w = true.
+  Proof.
+    intros Hf Hk Hl Hs Hpk Hts Hsg Hcb Hq Hcm Hc w.
+    assert (Hsl : lenN (tl_script l) = 34).
+    { rewrite Hs. unfold tapleaf_checksig_script. rewrite lenN_cons, lenN_app. unfold lenN at 1. rewrite Hpk. reflexivity. }
+    split; [|split].
+    - unfold taproot_final. rewrite Hf, Hk, Hts, Hl. cbn [nonempty filter map ts_leaf ts_sig].
+      rewrite bytes_eqb_refl. reflexivity.
+    - apply (read_witness_ser chk commit); [repeat constructor; lia | cbn; lia].
+    - unfold satisfies. destruct (class_p2tr q Hq) as (E1 & E2 & E3 & E4).
+      rewrite E1, E2, E3, E4. cbn [orb nonempty negb andb]. unfold w, eval_taproot. rewrite Hcm.
+      cbn [andb]. rewrite Hs in *. unfold tapleaf_checksig_script in *.
+      change (n8 x20 =? 32) with true. cbn [andb].
+      replace (lenN (pk ++ [SOP_CHECKSIG]) =? 33) with true
+        by (rewrite lenN_app; unfold lenN at 1; rewrite Hpk; reflexivity).
+      replace (last_byte (pk ++ [SOP_CHECKSIG])) with (Some SOP_CHECKSIG).
+      2:{ symmetry. apply last_byte_snoc. }
+      rewrite N.eqb_refl. cbn [andb].
+      rewrite firstn_app, <- Hpk, firstn_all, Nat.sub_diag. cbn [firstn]. rewrite app_nil_r. exact Hc.
+  Qed.
+End TemplatesTap.
+
+(* ------------------------------------------------------------------ *)
+(* finalization refuses: too few signatures, contradictory hash type   *)
+(* ------------------------------------------------------------------ *)
+Definition ms_exact (script : bytes) (sigs : list (bytes * bytes)) : Prop :=
+  exists n m, ms_stats script = Some (n, m) /\ lenL sigs = m.
+
+Lemma extract_key_order_exact script sigs os : extract_key_order script sigs = Some os -> ms_exact script sigs.
+Proof.
+  unfold extract_key_order, ms_exact. destruct (ms_stats script) as [[n m]|]; [|discriminate].
+  destruct (N.eqb_spec m (lenL sigs)); [|discriminate]. intros _. exists n, m. split; [reflexivity | congruence].
+Qed.
+
+Lemma check_sigs_typed e sigs : check_sigs_sht e sigs = OcOk tt -> forall pk sg, In (pk, sg) sigs -> sig_typed e sg.
+Proof.
+  induction sigs as [|[pk0 sg0] r IH]; intros H pk sg Hin; [destruct Hin|].
+  cbn [check_sigs_sht] in H. destruct (last_byte sg0) as [b|] eqn:El; [|discriminate].
+  destruct (N.eqb_spec e (n8 b)); [|discriminate].
+  destruct Hin as [E|Hin]; [inversion E; subst; exists b; split; [exact El | congruence] | apply (IH H pk sg Hin)].
+Qed.
+
+(* what a successful legacy / witness finalization implies about the partial signatures *)
+Definition enough_sigs (script : option bytes) (v2 : bool) (sigs : list (bytes * bytes)) : Prop :=
+  if has_f v2 script then ms_exact (obytes script) sigs else length sigs = 1%nat.
+
+Lemma legacy_sigscript_inv v2 i ss : legacy_sigscript v2 i = OcOk ss ->
+  enough_sigs (pi_redeem i) v2 (pi_sigs i) /\
+  forall pk sg, In (pk, sg) (pi_sigs i) -> sig_typed (expected_sht i) sg.
+Proof.
+  unfold legacy_sigscript, enough_sigs. destruct (check_sigs_sht (expected_sht i) (pi_sigs i)) as [[]| |] eqn:Ec; try discriminate.
+  cbn [obind]. intro H. split; [|apply check_sigs_typed; exact Ec].
+  destruct (pi_sigs i) as [|[pk sg] r] eqn:Es; [discriminate|].
+  destruct (has_f v2 (pi_redeem i)); cbn [negb] in H.
+  - destruct (extract_key_order _ _) eqn:Ee; [|discriminate]. eapply extract_key_order_exact; eauto.
+  - destruct r; [reflexivity | discriminate].
+Qed.
+
+Lemma multisig_witness_exact ws sigs w : multisig_witness ws sigs = Some w -> ms_exact ws sigs.
+Proof.
+  unfold multisig_witness. destruct (extract_key_order ws sigs) eqn:E; [|discriminate].
+  intros _. eapply extract_key_order_exact; eauto.
+Qed.
+
+Lemma witness_final_inv v2 i sw : witness_final v2 i = OcOk sw ->
+  enough_sigs (pi_wscript i) v2 (pi_sigs i) /\
+  forall pk sg, In (pk, sg) (pi_sigs i) -> sig_typed (expected_sht i) sg.
+Proof.
+  unfold witness_final, enough_sigs. destruct (check_sigs_sht (expected_sht i) (pi_sigs i)) as [[]| |] eqn:Ec; try discriminate.
+  cbn [obind]. intro H. split; [|apply check_sigs_typed; exact Ec].
+  destruct (pi_sigs i) as [|[pk sg] r] eqn:Es; [discriminate|].
+  destruct (has_f v2 (pi_redeem i)); cbn [negb] in H.
+  - destruct (of_builder _) as [ss| |]; cbn [obind] in H; try discriminate.
+    destruct (has_f v2 (pi_wscript i)); cbn [negb] in H.
+    + destruct (multisig_witness _ _) eqn:Em; [|discriminate]. eapply multisig_witness_exact; eauto.
+    + destruct r; [reflexivity | discriminate].
+  - destruct (has_f v2 (pi_wscript i)) eqn:Ew.
+    + destruct r; cbn [negb] in H;
+        (destruct (multisig_witness _ _) eqn:Em; [|discriminate]; eapply multisig_witness_exact; eauto).
+    + destruct r; [reflexivity | cbn [negb] in H; discriminate].
+Qed.
+
+(* the script whose signature count decides: witness script for witness inputs, redeem script otherwise *)
+Definition deciding_script (i : pin) : option bytes := if osome (pi_wu i) then pi_wscript i else pi_redeem i.
+
+Lemma nth_error_lupd {A} (l : list A) k f : forall x, nth_error l k = Some x -> nth_error (lupd l k f) k = Some (f x).
+Proof.
+  revert k. induction l as [|a l IH]; intros [|k] x H; cbn in *; try discriminate.
+  - inversion H; reflexivity.
+  - apply IH. exact H.
+Qed.
+
+Theorem finalize0_refuses p k p' i : finalize0 p k = (p', StOk) -> nth_error (p0_ins p) k = Some i ->
+  enough_sigs (deciding_script i) false (pi_sigs i) /\
+  forall pk sg, In (pk, sg) (pi_sigs i) -> sig_typed (expected_sht i) sg.
+Proof.
+  unfold finalize0, deciding_script. intros H Hi. rewrite Hi in H.
+  destruct (osome (pi_wu i)) eqn:Ew.
+  - destruct (is_final0 i); [discriminate|].
+    destruct (witness_final false i) as [sw| |] eqn:E; cbn [obind] in H; try discriminate.
+    eapply witness_final_inv; eauto.
+  - destruct (osome (pi_nwu i)); [|discriminate].
+    destruct (is_final0 i); [discriminate|].
+    destruct (legacy_sigscript false i) as [ss| |] eqn:E; cbn [obind] in H; try discriminate.
+    eapply legacy_sigscript_inv; eauto.
+Qed.
+
+Theorem finalize2_refuses p k p' i : finalize2 p k = (p', StOk) -> nth_error (q_ins p) k = Some i ->
+  osome (pi_wu (q_base i)) && is_taproot i = false ->
+  enough_sigs (deciding_script (q_base i)) true (pi_sigs (q_base i)) /\
+  forall pk sg, In (pk, sg) (pi_sigs (q_base i)) -> sig_typed (expected_sht (q_base i)) sg.
+Proof.
+  unfold finalize2, deciding_script. intros H Hi Ht. rewrite Hi, Ht in H.
+  destruct (osome (pi_wu (q_base i))) eqn:Ew.
+  - destruct (is_final2 i); [discriminate|].
+    destruct (witness_final true (q_base i)) as [sw| |] eqn:E; cbn [obind] in H; try discriminate.
+    eapply witness_final_inv; eauto.
+  - destruct (osome (pi_nwu (q_base i))); [|discriminate].
+    destruct (is_final2 i); [discriminate|].
+    destruct (legacy_sigscript true (q_base i)) as [ss| |] eqn:E; cbn [obind] in H; try discriminate.
+    eapply legacy_sigscript_inv; eauto.
+Qed.
+
+(* contrapositive forms, as the property states them *)
+Corollary too_few_sigs_never_finalize0 p k i n m :
+  nth_error (p0_ins p) k = Some i -> has_f false (deciding_script i) = true ->
+  ms_stats (obytes (deciding_script i)) = Some (n, m) -> lenL (pi_sigs i) < m ->
+  snd (finalize0 p k) <> StOk.
+Proof.
+  intros Hi Hh Hms Hlt Hf. destruct (finalize0 p k) as [p' s] eqn:E. cbn in Hf. subst s.
+  destruct (finalize0_refuses p k p' i E Hi) as [He _]. unfold enough_sigs in He. rewrite Hh in He.
+  destruct He as (n' & m' & E1 & E2). rewrite Hms in E1. inversion E1; subst. lia.
+Qed.
+
+Corollary no_sigs_never_finalize0 p k i :
+  nth_error (p0_ins p) k = Some i -> pi_sigs i = [] -> has_f false (deciding_script i) = false ->
+  snd (finalize0 p k) <> StOk.
+Proof.
+  intros Hi Hs Hh Hf. destruct (finalize0 p k) as [p' s] eqn:E. cbn in Hf. subst s.
+  destruct (finalize0_refuses p k p' i E Hi) as [He _]. unfold enough_sigs in He. rewrite Hh, Hs in He. discriminate He.
+Qed.
+
+Corollary sighash_mismatch_never_finalizes0 p k i pk sg b :
+  nth_error (p0_ins p) k = Some i -> In (pk, sg) (pi_sigs i) -> last_byte sg = Some b ->
+  n8 b <> expected_sht i -> snd (finalize0 p k) <> StOk.
+Proof.
+  intros Hi Hin Hl Hne Hf. destruct (finalize0 p k) as [p' s] eqn:E. cbn in Hf. subst s.
+  destruct (finalize0_refuses p k p' i E Hi) as [_ Ht]. destruct (Ht pk sg Hin) as (b' & Hl' & Hb).
+  rewrite Hl in Hl'. inversion Hl'; subst. contradiction.
+Qed.
+
+Corollary too_few_sigs_never_finalize2 p k i n m :
+  nth_error (q_ins p) k = Some i -> osome (pi_wu (q_base i)) && is_taproot i = false ->
+  has_f true (deciding_script (q_base i)) = true ->
+  ms_stats (obytes (deciding_script (q_base i))) = Some (n, m) -> lenL (pi_sigs (q_base i)) < m ->
+  snd (finalize2 p k) <> StOk.
+Proof.
+  intros Hi Htp Hh Hms Hlt Hf. destruct (finalize2 p k) as [p' s] eqn:E. cbn in Hf. subst s.
+  destruct (finalize2_refuses p k p' i E Hi Htp) as [He _]. unfold enough_sigs in He. rewrite Hh in He.
+  destruct He as (n' & m' & E1 & E2). rewrite Hms in E1. inversion E1; subst. lia.
+Qed.
+
+Corollary sighash_mismatch_never_finalizes2 p k i pk sg b :
+  nth_error (q_ins p) k = Some i -> osome (pi_wu (q_base i)) && is_taproot i = false ->
+  In (pk, sg) (pi_sigs (q_base i)) -> last_byte sg = Some b ->
+  n8 b <> expected_sht (q_base i) -> snd (finalize2 p k) <> StOk.
+Proof.
+  intros Hi Htp Hin Hl Hne Hf. destruct (finalize2 p k) as [p' s] eqn:E. cbn in Hf. subst s.
+  destruct (finalize2_refuses p k p' i E Hi Htp) as [_ Ht]. destruct (Ht pk sg Hin) as (b' & Hl' & Hb).
+  rewrite Hl in Hl'. inversion Hl'; subst. contradiction.
+Qed.
+
+(* ------------------------------------------------------------------ *)
+(* the extractors                                                      *)
+(* ------------------------------------------------------------------ *)
+Lemma set_in_final_strip ti i ti' : set_in_final ti i = Some ti' -> strip_in ti' = strip_in ti.
+Proof.
+  unfold set_in_final. destruct (pi_fwit i) as [fw|].
+  - destruct (read_witness fw); [|discriminate]. intro H; inversion H; reflexivity.
+  - intro H; inversion H; reflexivity.
+Qed.
+
+Lemma extract_ins_strip : forall tis pis r, extract_ins tis pis = OcOk r -> map strip_in r = map strip_in tis.
+Proof.
+  induction tis as [|ti tr IH]; intros pis r H; cbn [extract_ins] in H.
+  - inversion H; reflexivity.
+  - destruct pis as [|i pr]; [discriminate|].
+    destruct (set_in_final ti i) as [ti'|] eqn:E; [|discriminate].
+    destruct (extract_ins tr pr) as [r'| |] eqn:E2; cbn [obind] in H; try discriminate.
+    inversion H; subst. cbn [map]. rewrite (set_in_final_strip _ _ _ E), (IH _ _ E2). reflexivity.
+Qed.
+
+Lemma copy_tx_id t : copy_tx t = t.
+Proof. destruct t. unfold copy_tx. cbn. f_equal. unfold copy_in. apply map_id. Qed.
+
+(* v0: the extracted transaction is the unsigned transaction in every field other than input
+   scripts and witnesses; no hypothesis *)
+Theorem extract0_eq_unsigned p t : extract0 p = OcOk t -> strip_tx t = strip_tx (p0_tx p).
+Proof.
+  unfold extract0. destruct (all_final0 _ _) as [c| |]; cbn [obind]; try discriminate.
+  destruct c; cbn [negb]; [|discriminate]. rewrite copy_tx_id.
+  destruct (extract_ins _ _) as [ins| |] eqn:E; cbn [obind]; try discriminate.
+  intro H; inversion H; subst. unfold strip_tx. cbn [t_version t_flag t_locktime t_ins t_outs].
+  rewrite (extract_ins_strip _ _ _ E). reflexivity.
+Qed.
+
+(* ... and input k carries exactly the final script and the decoded final witness of section k *)
+Lemma extract_ins_nth : forall tis pis r k ti i, extract_ins tis pis = OcOk r ->
+  nth_error tis k = Some ti -> nth_error pis k = Some i ->
+  exists ti', nth_error r k = Some ti' /\ set_in_final ti i = Some ti'.
+Proof.
+  induction tis as [|t0 tr IH]; intros pis r k ti i H Ht Hi; [destruct k; discriminate|].
+  cbn [extract_ins] in H. destruct pis as [|i0 pr]; [discriminate|].
+  destruct (set_in_final t0 i0) as [t0'|] eqn:E; [|discriminate].
+  destruct (extract_ins tr pr) as [r'| |] eqn:E2; cbn [obind] in H; try discriminate.
+  inversion H; subst. destruct k as [|k]; cbn [nth_error] in *.
+  - inversion Ht; inversion Hi; subst. exists t0'. split; [reflexivity | exact E].
+  - eapply IH; eauto.
+Qed.
+
+Theorem extract0_input p t k ti i : extract0 p = OcOk t ->
+  nth_error (t_ins (p0_tx p)) k = Some ti -> nth_error (p0_ins p) k = Some i ->
+  exists ti', nth_error (t_ins t) k = Some ti' /\ set_in_final ti i = Some ti'.
+Proof.
+  unfold extract0. destruct (all_final0 _ _) as [c| |]; cbn [obind]; try discriminate.
+  destruct c; cbn [negb]; [|discriminate]. rewrite copy_tx_id.
+  destruct (extract_ins _ _) as [ins| |] eqn:E; cbn [obind]; try discriminate.
+  intros H Ht Hi; inversion H; subst. cbn [t_ins]. eapply extract_ins_nth; eauto.
+Qed.
+
+(* v2: Extract and UnsignedTx are two routines; they agree on an input exactly when ... *)
+Definition agree_in2 (i : pin2) : Prop :=
+  q_seq i <> 0 /\
+  osome (q_iss_entropy i) = ((0 <? q_iss_value i) || osome (q_iss_vcommit i)) /\
+  q_pegwit i = None /\
+  (q_index i = MinusOne \/ q_index i <= OutpointIndexMask).
+
+Lemma land_index_mask x : x <= OutpointIndexMask -> N.land x OutpointIndexMask = x.
+Proof.
+  intro H. change OutpointIndexMask with (N.ones 30) in *. rewrite N.land_ones.
+  apply N.mod_small. change (N.ones 30) with 1073741823 in H. change (2 ^ 30) with 1073741824. lia.
+Qed.
+
+Lemma extract_in2_strip i x : agree_in2 i -> extract_in2 i = Some x -> strip_in x = unsigned_in2 i.
+Proof.
+  intros (Hs & Hi & Hp & Hx) H. unfold extract_in2 in H.
+  destruct (match pi_fwit (q_base i) with Some fw => match read_witness fw with Some w => Some w | None => None end | None => Some [] end) as [w|]; [|discriminate].
+  inversion H; subst. unfold strip_in, unsigned_in2. cbn [in_hash in_index in_seq in_pegin in_iss].
+  rewrite Hp, <- Hi. cbn [osome].
+  replace (q_seq i =? 0) with false by lia.
+  f_equal. destruct Hx as [E|E]; [rewrite E; reflexivity|].
+  destruct (q_index i =? MinusOne); [reflexivity|]. symmetry. apply land_index_mask. exact E.
+Qed.
+
+Lemma extract_ins2_strip : forall l r, Forall agree_in2 l -> extract_ins2 l = Some r ->
+  map strip_in r = map unsigned_in2 l.
+Proof.
+  induction l as [|i l IH]; intros r Hf H; cbn [extract_ins2] in H.
+  - inversion H; reflexivity.
+  - inversion Hf as [|? ? Hi Hl]; subst.
+    destruct (extract_in2 i) as [x|] eqn:E; [|discriminate].
+    destruct (extract_ins2 l) as [xs|] eqn:E2; [|discriminate].
+    inversion H; subst. cbn [map]. rewrite (extract_in2_strip i x Hi E), (IH xs Hl eq_refl). reflexivity.
+Qed.
+
+Lemma strip_unsigned_in2 i : strip_in (unsigned_in2 i) = unsigned_in2 i.
+Proof. reflexivity. Qed.
+
+Theorem extract2_eq_unsigned_partial p t : Forall agree_in2 (q_ins p) ->
+  extract2 p = OcOk t -> strip_tx t = strip_tx (unsigned_tx2 p).
+Proof.
+  intros Hf. unfold extract2. destruct (sanity2 p); cbn [negb]; [|discriminate].
+  destruct (forallb is_final2 (q_ins p)); cbn [negb]; [|discriminate].
+  destruct (extract_ins2 (q_ins p)) as [ins|] eqn:E; [|discriminate].
+  intro H; inversion H; subst. unfold strip_tx, unsigned_tx2. cbn [t_version t_flag t_locktime t_ins t_outs].
+  rewrite (extract_ins2_strip _ _ Hf E). rewrite map_map. reflexivity.
+Qed.
+
+(* the full statement is false of the code as it is: three independent witnesses *)
+Definition rf_wu : txout := mk_out (x01 :: repeat x07 32) (x01 :: repeat x00 7 ++ [x09]) (x51 :: x20 :: repeat x05 32) [x00] [] [].
+Definition rf_base : pin := mk_pin None (Some rf_wu) [] 0 None None None (Some [x01; x01; x2a]).
+Definition rf_in (seq : N) (issv : N) (ent : option bytes) (peg : option (list bytes)) : pin2 :=
+  mk_pin2 rf_base [x0b] 0 seq 0 0 issv None None None 0 None None ent [] [] peg [] [] [] [] [].
+Definition rf_pset (i : pin2) : pset2 := mk_pset2 2 None 0 [i] [].
+
+Theorem extract2_sequence_refuted :
+  exists p t, extract2 p = OcOk t /\ strip_tx t <> strip_tx (unsigned_tx2 p) /\
+              map in_seq (t_ins t) = [0] /\ map in_seq (t_ins (unsigned_tx2 p)) = [u32max].
+Proof.
+  exists (rf_pset (rf_in 0 0 None None)). eexists. split; [vm_compute; reflexivity|].
+  split; [vm_compute; discriminate | split; vm_compute; reflexivity].
+Qed.
+
+Theorem extract2_issuance_refuted :
+  exists p t, extract2 p = OcOk t /\ strip_tx t <> strip_tx (unsigned_tx2 p) /\
+              map (fun i => osome (in_iss i)) (t_ins t) = [true] /\
+              map (fun i => osome (in_iss i)) (t_ins (unsigned_tx2 p)) = [false].
+Proof.
+  exists (rf_pset (rf_in 5 7 None None)). eexists. split; [vm_compute; reflexivity|].
+  split; [vm_compute; discriminate | split; vm_compute; reflexivity].
+Qed.
+
+Theorem extract2_pegin_refuted :
+  exists p t, extract2 p = OcOk t /\ strip_tx t <> strip_tx (unsigned_tx2 p) /\
+              map in_pegin (t_ins t) = [true] /\ map in_pegin (t_ins (unsigned_tx2 p)) = [false].
+Proof.
+  exists (rf_pset (rf_in 5 0 None (Some [[x01]]))). eexists. split; [vm_compute; reflexivity|].
+  split; [vm_compute; discriminate | split; vm_compute; reflexivity].
+Qed.
+
+Theorem extract2_eq_unsigned_refuted :
+  exists p t, extract2 p = OcOk t /\ strip_tx t <> strip_tx (unsigned_tx2 p).
+Proof. destruct extract2_sequence_refuted as (p & t & H1 & H2 & _). exists p, t. split; assumption. Qed.
+
+(* taproot finalization checks neither the number of signatures for the leaf it finalizes
+   nor the hash type of the signatures: witnesses *)
+Definition rf_leaf : tleaf := mk_tleaf (tapleaf_checksig_script (repeat x03 32)) 0xc4 (xc4 :: repeat x02 32).
+Definition rf_tap_in (sht : N) (keysig : bytes) (sigs : list tsig) (leafs : list tleaf) : pin2 :=
+  mk_pin2 (mk_pin None (Some rf_wu) [] sht None None None None)
+          [x0b] 0 5 0 0 0 None None None 0 None None None [] [] None keysig sigs leafs [] [].
+
+(* a single leaf, one signature for some other leaf: finalization succeeds and the witness
+   holds no signature at all *)
+Theorem taproot_too_few_refuted :
+  exists p p' i', finalize2 p 0 = (p', StOk) /\ nth_error (q_ins p') 0 = Some i' /\
+    pi_fwit (q_base i') = Some (vector [tl_script rf_leaf; tl_cb rf_leaf]).
+Proof.
+  exists (rf_pset (rf_tap_in 0 [] [mk_tsig (repeat x03 32) (repeat x04 64) (repeat x09 32)] [rf_leaf])).
+  eexists. eexists. split; [vm_compute; reflexivity | split; vm_compute; reflexivity].
+Qed.
+
+(* declared SIGHASH_SINGLE (3), key-path signature of type ALL|ANYONECANPAY (0x81): accepted *)
+Theorem taproot_sighash_mismatch_refuted :
+  exists p p', pi_sht (q_base (rf_tap_in 3 (repeat x04 64 ++ [x81]) [] [])) = 3 /\
+    finalize2 p 0 = (p', StOk) /\ q_ins p = [rf_tap_in 3 (repeat x04 64 ++ [x81]) [] []].
+Proof.
+  exists (rf_pset (rf_tap_in 3 (repeat x04 64 ++ [x81]) [] [])). eexists.
+  split; [reflexivity | split; [vm_compute; reflexivity | reflexivity]].
+Qed.
+
+(* ------------------------------------------------------------------ *)
+(* any signing order, and the serialize/parse hop, give the same final scripts *)
+(* ------------------------------------------------------------------ *)
+From Coq Require Import Sorting.Permutation.
+
+Lemma memb_perm pks pks' k : Permutation pks pks' -> memb pks k = memb pks' k.
+Proof.
+  intro H. destruct (memb pks k) eqn:E.
+  - symmetry. apply memb_In. apply memb_In in E. eapply Permutation_in; eauto.
+  - symmetry. destruct (memb pks' k) eqn:E'; [|reflexivity].
+    apply memb_In in E'. apply Permutation_sym in H. pose proof (Permutation_in k H E') as Hin.
+    apply memb_In in Hin. congruence.
+Qed.
+
+Theorem signing_order_irrelevant sgf keys pks pks' : Permutation pks pks' ->
+  ms_ordered sgf keys pks = ms_ordered sgf keys pks'.
+Proof.
+  intro H. unfold ms_ordered. f_equal. apply filter_ext. intro k. apply memb_perm. exact H.
+Qed.
+
+Lemma ms_ok_perm m keys pks pks' sgf : Permutation pks pks' -> ms_ok m keys pks sgf -> ms_ok m keys pks' sgf.
+Proof.
+  intros Hp [H1 H2 H3 H4 H5 H6 H7 H8]. constructor; try assumption.
+  - eapply Permutation_NoDup; eauto.
+  - intros k Hk. apply H6. eapply Permutation_in; [apply Permutation_sym|]; eauto.
+  - rewrite H7. unfold lenL. rewrite (Permutation_length Hp). reflexivity.
+  - intros k Hk. apply H8. eapply Permutation_in; [apply Permutation_sym|]; eauto.
+Qed.
+
+(* the order extractKeyOrderFromScript produces does not depend on the order of the partial
+   signatures: signer order, or the pubkey order a serialize/parse hop imposes *)
+Theorem extract_key_order_perm m keys pks pks' sgf : Permutation pks pks' -> ms_ok m keys pks sgf ->
+  extract_key_order (multisig_script m keys) (ms_pairs sgf pks') =
+  extract_key_order (multisig_script m keys) (ms_pairs sgf pks).
+Proof.
+  intros Hp Hok. rewrite (ms_order _ _ _ _ Hok), (ms_order _ _ _ _ (ms_ok_perm _ _ _ _ _ Hp Hok)).
+  f_equal. symmetry. apply signing_order_irrelevant. exact Hp.
+Qed.
+
+Lemma insert_pk_perm x l : Permutation (insert_pk x l) (x :: l).
+Proof.
+  induction l as [|y r IH]; [apply Permutation_refl|]. cbn [insert_pk].
+  destruct (bytes_leb (fst y) (fst x)); [|apply Permutation_refl].
+  eapply Permutation_trans; [apply perm_skip; exact IH | apply perm_swap].
+Qed.
+Theorem hop_sorts_a_permutation l : Permutation (sort_pk l) l.
+Proof.
+  induction l as [|x r IH]; [constructor|]. cbn [sort_pk].
+  eapply Permutation_trans; [apply insert_pk_perm | apply perm_skip; exact IH].
+Qed.
+
+(* ------------------------------------------------------------------ *)
+(* the digest link: signatures made over the unsigned transaction are   *)
+(* signatures over the extracted one                                    *)
+(* ------------------------------------------------------------------ *)
+Section Digest.
+  (* abstract signature scheme and signature-hash function (the digest itself is C02/C03) *)
+  Variable verify : bytes -> bytes -> bytes -> bool.             (* pubkey, message, signature *)
+  Variable digest : tx -> salgo -> N -> nat -> bytes -> bytes -> bytes.  (* tx, algorithm, hash type, input, script code, amount *)
+  (* no signature hash covers input scripts or witness data of the transaction being signed *)
+  Hypothesis digest_frame : forall t t', strip_tx t = strip_tx t' -> digest t = digest t'.
+
+  Definition chk_dig (t : tx) (k : nat) (amount : bytes) : salgo -> bytes -> bytes -> bytes -> bool :=
+    fun a sc pk sg =>
+      match unsnoc sg with
+      | Some (body, ht) => verify pk (digest t a (n8 ht) k sc amount) body
+      | None => false
+      end.
+
+  Theorem extracted_checks_as_signed0 p t k amount : extract0 p = OcOk t ->
+    chk_dig t k amount = chk_dig (p0_tx p) k amount.
+  Proof.
+    intro H. unfold chk_dig. rewrite (digest_frame t (p0_tx p) (extract0_eq_unsigned p t H)). reflexivity.
+  Qed.
+
+  Theorem extracted_checks_as_signed2_partial p t k amount : Forall agree_in2 (q_ins p) ->
+    extract2 p = OcOk t -> chk_dig t k amount = chk_dig (unsigned_tx2 p) k amount.
+  Proof.
+    intros Ha H. unfold chk_dig.
+    rewrite (digest_frame t (unsigned_tx2 p) (extract2_eq_unsigned_partial p t Ha H)). reflexivity.
+  Qed.
+End Digest.
+
+(* ------------------------------------------------------------------ *)
+(* the key-set hypothesis is needed: first-occurrence ordering misorders *)
+(* an adversarially chosen key set (model as the code is)                *)
+(* ------------------------------------------------------------------ *)
+Definition amb_k3 : bytes := x03 :: repeat x07 31 ++ [x21].
+Definition amb_k1 : bytes := x02 :: firstn 32 amb_k3.
+Definition amb_k2 : bytes := x02 :: repeat x09 32.
+Definition amb_keys : list bytes := [amb_k1; amb_k2; amb_k3].
+Definition amb_sgf (k : bytes) : bytes := k ++ [x01].
+Definition amb_chk : salgo -> bytes -> bytes -> bytes -> bool := fun _ _ pk sg => bytes_eqb sg (amb_sgf pk).
+Definition amb_in : pin :=
+  mk_pin None None (ms_pairs amb_sgf [amb_k2; amb_k3]) 1 (Some (multisig_script 2 amb_keys)) None None None.
+
+Theorem ambiguous_keys_refuted :
+  exists ss, legacy_sigscript false amb_in = OcOk ss /\
+    (forall k, In k [amb_k2; amb_k3] -> amb_chk ALegacy (multisig_script 2 amb_keys) k (amb_sgf k) = true) /\
+    satisfies amb_chk (fun _ _ _ => true) (p2sh_script (hash160 (multisig_script 2 amb_keys))) ss [] = false.
+Proof.
+  eexists. split; [vm_compute; reflexivity|]. split.
+  - intros k [<-|[<-|[]]]; vm_compute; reflexivity.
+  - vm_compute. reflexivity.
+Qed.
+
+(* ------------------------------------------------------------------ *)
+(* non-vacuity: the hypotheses of the template theorems are satisfiable *)
+(* ------------------------------------------------------------------ *)
+Definition ex_k1 : bytes := x02 :: repeat x11 32.
+Definition ex_k2 : bytes := x03 :: repeat x22 32.
+Definition ex_k3 : bytes := x02 :: repeat x33 32.
+Definition ex_keys : list bytes := [ex_k1; ex_k2; ex_k3].
+Definition ex_pos (k : bytes) : N := match bindex_of k (multisig_script 2 ex_keys) with Some p => p | None => 0 end.
+
+Example ex_ms_ok : ms_ok 2 ex_keys [ex_k3; ex_k1] amb_sgf.
+Proof.
+  constructor.
+  - lia.
+  - vm_compute. discriminate.
+  - repeat constructor; left; reflexivity.
+  - exists ex_pos. split.
+    + intros k [<-|[<-|[<-|[]]]]; vm_compute; reflexivity.
+    + repeat constructor; vm_compute; reflexivity.
+  - constructor; [cbn; intros [H|[]]; discriminate H | constructor; [intros [] | constructor]].
+  - intros k [<-|[<-|[]]]; cbn; tauto.
+  - reflexivity.
+  - intros k [<-|[<-|[]]]; split; vm_compute; discriminate.
+Qed.
+
+Example ex_final_satisfies :
+  exists ss, legacy_sigscript false
+               (mk_pin None None (ms_pairs amb_sgf [ex_k3; ex_k1]) 0 (Some (multisig_script 2 ex_keys)) None None None) = OcOk ss /\
+             satisfies amb_chk (fun _ _ _ => true) (p2sh_script (hash160 (multisig_script 2 ex_keys))) ss [] = true.
+Proof.
+  apply (p2sh_ms_final amb_chk (fun _ _ _ => true) false _ 2 ex_keys [ex_k3; ex_k1] amb_sgf ex_ms_ok).
+  - reflexivity.
+  - reflexivity.
+  - vm_compute. discriminate.
+  - intros k [<-|[<-|[]]]; exists x01; split; vm_compute; reflexivity.
+  - intros k [<-|[<-|[]]]; vm_compute; reflexivity.
+  - intros k k' Hk Hk' H. unfold amb_chk in H. apply bytes_eqb_eq in H. unfold amb_sgf in H.
+    apply app_inj_tail in H as [H _]. congruence.
+Qed.
